@@ -366,6 +366,7 @@ def check_wire(lx: LayoutExtractor, rep, prefix='C02', only=None, rule_map=None)
         i = 0
         after_len_offset = None
         offset = 0
+        const_len = None
         for el in spec['fields']:
             if el[0] == 'f':
                 _, fname, width, binding = el
@@ -386,6 +387,10 @@ def check_wire(lx: LayoutExtractor, rep, prefix='C02', only=None, rule_map=None)
                 if got != width:
                     p2.append('%s: %d byte(s) on the wire, standard: %d' % (fname, got, width))
                 b = first[4]
+                if binding == OR.L and b[0] == 'const' and type(b[1]) is int:
+                    # a literal in the length position is a length field of that value (a structure without variable part)
+                    b = ('length', None, Affine.c(b[1]))
+                    const_len = b
                 if binding == OR.T and b[0] != 'type':
                     p2.append('%s: encoder packs %s, standard: the type code' % (fname, _bname(b)))
                 elif binding == OR.L and b[0] != 'length':
@@ -423,6 +428,8 @@ def check_wire(lx: LayoutExtractor, rep, prefix='C02', only=None, rule_map=None)
         pairs, _ = align(lay)
         ext = enc_extent(lay, pairs)
         lens = [e[4] for e in lay.enc if e[0] == 'f' and e[4][0] == 'length']
+        if const_len is not None:
+            lens.append(const_len)
         if len(lens) != 1:
             p3.append('%d length fields packed' % len(lens))
         elif after_len_offset is not None:
@@ -586,3 +593,88 @@ def conversion_round_trips(lx: LayoutExtractor, lay: CodecLayout):
                                 % (attr, A, A2, E, ', %d-byte field' % width if width else '', D))
                 break
     return problems, undecided
+
+
+def peek_problems(repo) -> Tuple[List[str], int, str]:
+    """The look-ahead the container decoders rely on (``_next_type``): on every path through it the stream position is
+    where it was -- a byte that was read is stepped back over with ``seek(-1, 1)`` (the end-of-stream path read nothing) --
+    and the value returned is the integer value of the byte read, ``None`` only on the path whose read returned ``b''``."""
+    from .sym import SymClient, empty_state
+    fi = repo.func('pdu', '_next_type')
+    if len(fi.params) != 1:
+        raise AnalysisError('%s: the look-ahead takes %d parameters' % (fi.loc(), len(fi.params)))
+    p = fi.params[0]
+
+    def event_of(call, callee, client, state):
+        if callee == p + '.read':
+            return 'read'
+        if callee == p + '.seek':
+            return 'seek'
+        if callee.startswith(p + '.'):
+            return 'other'
+        return None
+
+    def fresh_of(call, callee, client, state):
+        return 'RD' if callee == p + '.read' else None
+
+    cl = SymClient(repo, fi, event_of=event_of, inline=lambda f: repo.is_helper(f), fresh_of=fresh_of)
+    o = cl.run(empty_state({p: p}))
+    probs: List[str] = []
+    n = 0
+    for s, how in cl.final_states(o):
+        if how.startswith('raise'):
+            continue
+        n += 1
+        evs = [e for e in s.trail if e.kind in ('read', 'seek', 'other')]
+        reads = [e for e in evs if e.kind == 'read']
+        if [e for e in evs if e.kind == 'other']:
+            probs.append('line %d: the stream is also used through %s' % (evs[0].line, [e.callee for e in evs if e.kind == 'other'][0]))
+            continue
+        if len(reads) != 1 or reads[0].args != ('1',):
+            probs.append('a path reads %s, not exactly one byte' % ([('read(%s)' % ','.join(e.args)) for e in reads] or 'nothing'))
+            continue
+        tok = None
+        for e in s.trail:
+            pass
+        # the token of the read: the RD_ term bound at that line
+        toks = sorted({t for t in _tokens_in(s, 'RD_')})
+        tok = toks[0] if len(toks) == 1 else None
+        empty = tok is not None and any(c.replace(' ', '') in (
+            "+%s==b''" % tok, "-%s!=b''" % tok, "-%s" % tok, "+not%s" % tok, "+len(%s)==0" % tok, "-len(%s)" % tok,
+            "-len(%s)==1" % tok, "+len(%s)!=1" % tok, "+len(%s)<1" % tok) for c in s.conds)
+        seeks = [e for e in evs if e.kind == 'seek']
+        ret = s.ret if how == 'return' else 'None'
+        if empty:
+            if seeks:
+                probs.append('line %d: the end-of-stream path (nothing was read) moves the stream' % seeks[0].line)
+            if ret not in (None, 'None'):
+                probs.append('the end-of-stream path returns %s, the container loops stop on None' % ret)
+            continue
+        back = [e for e in seeks if tuple(a.replace(' ', '') for a in e.args) in (('-1', '1'), ('-1', 'os.SEEK_CUR'), ('-1', 'io.SEEK_CUR'))]
+        if len(seeks) != 1 or len(back) != 1 or evs.index(back[0]) < evs.index(reads[0]):
+            probs.append('line %d: a path that read a byte returns without stepping back over exactly that byte (%s)'
+                         % (reads[0].line, ', '.join('seek(%s)' % ','.join(e.args) for e in seeks) or 'no seek'))
+            continue
+        r = (ret or 'None').replace(' ', '')
+        ok = tok is not None and r in ("struct.unpack('B',%s)[0]" % tok, "struct.unpack('>B',%s)[0]" % tok, "struct.unpack('!B',%s)[0]" % tok,
+                                       "struct.unpack('<B',%s)[0]" % tok, 'six.indexbytes(%s,0)' % tok, 'ord(%s)' % tok,
+                                       'six.byte2int(%s)' % tok, "int.from_bytes(%s,'big')" % tok, "int.from_bytes(%s,'little')" % tok,
+                                       'bytearray(%s)[0]' % tok)
+        if not ok:
+            probs.append('the value returned for a byte that was read is %s, not the integer value of that byte' % ret)
+    if n == 0:
+        raise AnalysisError('%s: no path through the look-ahead returns' % fi.loc())
+    return probs, n, fi.loc()
+
+
+def _tokens_in(s, prefix: str):
+    import re as _re
+    for _n, v in s.env:
+        for m in _re.finditer(r'\b%s\w+' % prefix, v):
+            yield m.group(0)
+    for c in s.conds:
+        for m in _re.finditer(r'\b%s\w+' % prefix, c):
+            yield m.group(0)
+    if s.ret:
+        for m in _re.finditer(r'\b%s\w+' % prefix, s.ret):
+            yield m.group(0)
